@@ -276,6 +276,11 @@ def _merge_shards(raw, keys):
                 elif old["status"] in ("discharged", "covered") and o["status"] not in ("discharged", "covered") and o.get("kind") != "cover":
                     seen[key] = o
         m["obligations"] = list(seen.values())
+        if all(r["status"] == "ok" for r in rs) and not getattr(REGISTRY.get(k), "is_lemma", False) and not any(
+                o.get("kind") == "cover" and ("cover@exit" in o["name"] or "cover@raise" in o["name"]) for o in m["obligations"]):
+            # no shard explored a path that reaches an exit of the function: its postconditions would be vacuous
+            m["obligations"].append({"name": f"{m['name']}/cover@exit", "kind": "cover", "status": "uncovered", "time": 0.0, "backend": "",
+                                     "detail": "no explored path reaches an exit of the function", "path": [], "model": None})
         m["paths"] = sum(r["paths"] for r in rs)
         m["solver_time"] = sum(r["solver_time"] for r in rs)
         m["wall"] = max(r["wall"] for r in rs)
@@ -415,9 +420,10 @@ def check_property(pid, tier="quick", seed=0, manifest_level="proof", jobs=None,
         bq = ctx.Queue()
         bproc = ctx.Process(target=_run_bounded, args=(pid, tier, seed, bq))
         bproc.start()
-    results = run_deductive(pid, tier, active_known, jobs, only)
+    bounded_only = bool(os.environ.get("PYVC_BOUNDED_ONLY"))  # developer aid (never --no-write off): the stand-in alone, e.g. to try other seeds
+    results = [] if bounded_only else run_deductive(pid, tier, active_known, jobs, only)
     load_contracts()
-    xres = run_xcheck(pid, tier, seed, jobs) if not only else {}
+    xres = run_xcheck(pid, tier, seed, jobs) if not only and not bounded_only else {}
     n_obl = n_dis = 0
     backends = {}
     solver_time = 0.0
@@ -518,6 +524,8 @@ def check_property(pid, tier="quick", seed=0, manifest_level="proof", jobs=None,
     checker_broken = None
     if results and n_obl == 0 and not not_generated:
         checker_broken = "zero obligations generated"
+    if bounded_only and write:
+        checker_broken = "PYVC_BOUNDED_ONLY is a developer aid: use it with --no-write"
     all_dis = n_obl > 0 and n_dis == n_obl and not not_generated
     level = manifest_level if (manifest_level != "proof" or all_dis or known_hits) else "other"
     if manifest_level == "proof" and (undecided or not_generated):
